@@ -208,8 +208,14 @@ def rules(ctx):
         flownet.need(ctx, "R4.trip-%s-capped-by-trip-limit" % fld.replace("_", "-"), edges, "trip", fld, [call(NW_MFC)],
                      "lower and upper bound of a trip edge are capped by the same (per-trip) formation limit, else lower > upper and the "
                      "circulation is infeasible (network_simplex(..).unwrap() panics)")
-    from .C09 import cost_delta_form
+    from .C09 import cost_delta_form, source_sets
     cost_delta_form(ctx, common.sites_of(ctx, SCHEDULE))
+    # costs are unsigned: an incremental helper that prices a node differently from the definition subtracts more than was added
+    before = len(ctx.obligations)
+    source_sets(ctx)
+    ctx.obligations[before:] = [o_ for o_ in ctx.obligations[before:] if "costs" in o_.id]
+    for o_ in ctx.obligations[before:]:
+        o_.id = o_.id.replace("C06/R3.", "C06/R4.costs.")
     from .C15 import counter_plain_sum
     counter_plain_sum(ctx, common.sites_of(ctx, TRANSITION))
     from .C16 import every_vehicle_type
